@@ -437,13 +437,20 @@ class BasinProxyFeature(np.lib.mixins.NDArrayOperatorsMixin):
     def __getattr__(self, item):
         if item in [
             "dtype",
-            "shape",
-            "size",
         ]:
             return getattr(self.feat_obj, item)
         else:
             raise AttributeError(
                 f"BasinProxyFeature does not implement {item}")
+
+    @property
+    def shape(self):
+        """Shape of the mapped data (not that of the basin's feature)"""
+        return (len(self.basinmap),) + tuple(self.feat_obj.shape[1:])
+
+    @property
+    def size(self):
+        return np.prod(self.shape)
 
     def __getitem__(self, index):
         if self._cache is None and isinstance(index, numbers.Integral):
